@@ -90,7 +90,7 @@ CLAIMED = {
             'x in children(p) iff parent(x) = p, no repetition, one root, no self-parent — for all seven operations incl. the recursive remove_state, '
             'any session, any chart built by the API); no_reference_dangles_after_* / any_edit_session_leaves_no_dangling_reference (initial/memory name existing '
             'states); validate_means (validate() on a consistent chart = every initial a child, every memory a sibling) and validate_passes_after_remove/_move/'
-            '_rename/_add, any_edit_session_keeps_validate_passing (states added without initial/memory); still_a_tree_after_* / any_edit_session_keeps_the_tree / '
+            '_rename/_add, any_edit_session_keeps_validate_passing (states added without initial/memory), validate_after_add_iff (after add_state validate() passes iff the new state arrives without initial and with no memory or one that is a child of the same parent) and any_fitting_edit_session_keeps_validate_passing; still_a_tree_after_* / any_edit_session_keeps_the_tree / '
             'built_charts_are_trees (the parent relation stays acyclic: move_state re-hangs a subtree outside itself because descendants_for is complete on a '
             'consistent acyclic chart); remove_state_removes_exactly_the_subtree (the states outside the subtree of n keep their parents, the transitions '
             'outside it stay in order, everything else is gone); edited_well_formed_statecharts_stay_sound (all of it at once for any edit session of a well-formed chart). ' + TIE, '§6 C16'),
